@@ -160,11 +160,7 @@ fn check_answer(env: &Env, req: &[u8], rec: &Rec, status_requested: bool) {
         assert!(be16(a, 66) == 0xf002 && be16(a, 68) == 18, "second TLV is the CSPTP status TLV");
         assert!(a[70] == env.state.grandmaster_priority_1 && a[75] == env.state.grandmaster_priority_2, "status TLV priorities");
         assert!(be16(a, 76) == env.state.steps_removed, "status TLV stepsRemoved");
-        let mut k = 0;
-        while k < 8 {
-            assert!(a[80 + k] == env.state.grandmaster_identity.0[k], "status TLV grandmaster identity");
-            k += 1;
-        }
+        assert!(be64(a, 80) == u64::from_be_bytes(env.state.grandmaster_identity.0), "status TLV grandmaster identity");
     }
     match env.ev_result {
         Ok(tx) => {
@@ -182,17 +178,17 @@ fn check_answer(env: &Env, req: &[u8], rec: &Rec, status_requested: bool) {
 
 /// Template: Sync + CSPTP request TLV (4 value bytes), 52 bytes; type/length fields concrete, rest symbolic.
 #[kani::proof]
-#[kani::unwind(16)]
+#[kani::unwind(5)]
 fn c45_handle() {
     let mut req: [u8; 52] = kani::any();
     let env = any_env();
-    req[0] &= 0xf0; // Sync
+    req[0] = 0x30; // sdoId high nibble 3 (CSPTP), messageType Sync
     put16(&mut req, 2, 52);
     put16(&mut req, 44, 0xff00);
     put16(&mut req, 46, 4);
     // the parser and Timestamp::new disagree at nanoseconds == 10^9 exactly; excluded (see report)
     kani::assume(be32(&req, 40) != 1_000_000_000);
-    let well_formed = (req[0] >> 4) == 3 && req[5] == 0 && req[1] & 0x0f == 2 && be32(&req, 40) < 1_000_000_000;
+    let well_formed = req[5] == 0 && req[1] & 0x0f == 2 && be32(&req, 40) < 1_000_000_000;
 
     let rec = run(&env, &req);
     if !well_formed {
@@ -209,6 +205,7 @@ fn c45_handle() {
 }
 
 /// Raw-byte scan: does the datagram contain, inside messageLength, a CSPTP request TLV?
+/// (N <= 56: at most three TLV headers fit behind the Sync body.)
 fn looks_like_request<const N: usize>(b: &[u8; N], n: usize) -> bool {
     if n < 44 {
         return false;
@@ -220,7 +217,7 @@ fn looks_like_request<const N: usize>(b: &[u8; N], n: usize) -> bool {
     let mut off = 44;
     let mut found = false;
     let mut guard = 0;
-    while guard < N / 4 {
+    while guard < 3 {
         if off + 4 <= ml {
             let len = be16(b, off + 2) as usize;
             if be16(b, off) == 0xff00 && len >= 1 && off + 4 + len <= ml {
@@ -253,13 +250,13 @@ fn handle_any<const N: usize>() {
 }
 
 #[kani::proof]
-#[kani::unwind(16)]
+#[kani::unwind(5)]
 fn c45_handle_any() {
     handle_any::<52>();
 }
 
 #[kani::proof]
-#[kani::unwind(16)]
+#[kani::unwind(5)]
 fn c45_handle_any_56() {
     handle_any::<56>();
 }
